@@ -41,6 +41,64 @@ pub fn generate(tier: Tier, emit: Emit) {
     gen_capture(tier, emit);
     gen_generators(tier, emit);
     gen_tails(tier, emit);
+    gen_packed_calls(tier, emit);
+}
+
+/// every callee kind x every packing pattern of the call arguments
+fn gen_packed_calls(_tier: Tier, emit: Emit) {
+    let sp = |e: X| Arg::Spread(e);
+    let patterns: Vec<(&str, Vec<Arg>)> = vec![
+        ("xs...", vec![sp(id("xs"))]),
+        ("0, xs...", vec![Arg::E(int(0)), sp(id("xs"))]),
+        ("xs..., 9", vec![sp(id("xs")), Arg::E(int(9))]),
+        ("[]..., 9", vec![sp(list(vec![])), Arg::E(int(9))]),
+        ("[]...", vec![sp(list(vec![]))]),
+        ("xs..., ys...", vec![sp(id("xs")), sp(id("ys"))]),
+        ("[]..., xs...", vec![sp(list(vec![])), sp(id("xs"))]),
+        ("0, []..., xs..., 9", vec![Arg::E(int(0)), sp(list(vec![])), sp(id("xs")), Arg::E(int(9))]),
+        ("1, 2", vec![Arg::E(int(1)), Arg::E(int(2))]),
+    ];
+    let body_tuple = || tuple(vec![id("a"), id("b"), id("rest")]);
+    let mk_f = |generator: bool| -> X {
+        let mut fd = FuncDef {
+            args: vec![
+                ArgDef { pat: Pat::Id("a".into(), None), default: Some(s("da")) },
+                ArgDef { pat: Pat::Id("b".into(), None), default: Some(s("db")) },
+                ArgDef { pat: Pat::Id("rest".into(), None), default: None },
+            ],
+            variadic: true,
+            body: if generator { blk(vec![x(E::Yield(id("a"))), x(E::Yield(id("b"))), x(E::For(vec![Pat::Id("r".into(), None)], id("rest"), blk(vec![x(E::Yield(id("r")))])))]) } else { blk(vec![body_tuple()]) },
+            out_hint: None,
+            is_gen: generator,
+            inline: false,
+        };
+        fd.inline = false;
+        x(E::Func(std::rc::Rc::new(fd)))
+    };
+    for (callee_kind, setup, callee, is_gen) in [
+        ("function", vec![assign("f", mk_f(false))], id("f"), false),
+        ("generator", vec![assign("f", mk_f(true))], id("f"), true),
+        ("call-metakey", vec![assign("f", mk_f(false)), assign("c", x(E::Map(vec![(MK::Meta("call".into(), None), Some(id("f")))])))], id("c"), false),
+        ("call-metakey-generator", vec![assign("f", mk_f(true)), assign("c", x(E::Map(vec![(MK::Meta("call".into(), None), Some(id("f")))])))], id("c"), true),
+        ("method", vec![assign("f", mk_f(false)), assign("m", map(vec![("f", id("f"))]))], access(id("m"), "f"), false),
+    ] {
+        for (_pname, args) in &patterns {
+            for in_function in [false, true] {
+                let call = x(E::Call(callee.clone(), args.clone(), CallStyle::Parens));
+                let observed = if is_gen { method(call, "to_tuple", vec![]) } else { call };
+                let mut body = vec![assign("xs", list(vec![int(1), int(2), int(3)])), assign("ys", tuple(vec![s("p"), s("q")]))];
+                body.extend(setup.clone());
+                body.push(assign("keep", int(42)));
+                body.push(print(observed.clone()));
+                // the caller's own values survive the call
+                body.push(print(tuple(vec![id("keep"), id("xs"), id("ys")])));
+                body.push(print(observed));
+                let prog = if in_function { vec![assign("run", func(&[], body)), callf("run", vec![]), print(s("end"))] } else { body };
+                let _ = callee_kind;
+                emit(Case { family: "packed-calls", prog, shape: vec![] });
+            }
+        }
+    }
 }
 
 /// function bodies whose last expression contains a (bare or valued) return / break / continue in
